@@ -33,12 +33,12 @@ Lemma c_reset s : ok (reset c s).
 Proof. apply c_queue. Qed.
 Lemma c_reconnect s srv w : ok (reconnect c s srv w).
 Proof. unfold reconnect. repeat (first [apply c_reset | okstep]). Qed.
-Lemma c_endCap s : ok (endCap s).
-Proof. unfold endCap. repeat (first [apply c_transition | okstep]). Qed.
+Lemma c_endCap s : ok (endCap c s).
+Proof. unfold endCap. repeat (first [apply c_transition | apply c_reconnect | okstep]). Qed.
 Lemma c_tryNext s : ok (tryNextSasl c s).
 Proof. unfold tryNextSasl. repeat (first [apply c_transition | apply c_expect | apply c_endCap | okstep]). Qed.
 Lemma c_maybe s : ok (maybeStartSasl c s).
-Proof. unfold maybeStartSasl. repeat (first [apply c_transition | apply c_tryNext | okstep]). Qed.
+Proof. unfold maybeStartSasl. repeat (first [apply c_transition | apply c_tryNext | apply c_endCap | okstep]). Qed.
 Lemma c_upkeep s : ok (capUpkeep c s).
 Proof. unfold capUpkeep. repeat (first [apply c_expect | apply c_reconnect | apply c_maybe | apply c_endCap | okstep]). Qed.
 Lemma c_sts s p : ok (onCapSts c s p).
@@ -69,7 +69,7 @@ Proof.
   intro Hm. destruct m as [args|args b e|code args|args|args|]; [|destruct Hm| | | |]; cbn [step].
   - repeat (first [apply c_ls | apply c_ack | apply c_nak | apply c_new | apply c_del | okstep]).
   - unfold do903, do908, do376, do43x.
-    repeat (first [apply c_transition | apply c_endCap | apply c_tryNext | okstep]).
+    repeat (first [apply c_transition | apply c_endCap | apply c_tryNext | apply c_reconnect | okstep]).
   - unfold doError. repeat (first [apply c_reconnect | okstep]).
   - unfold doPing. repeat okstep.
   - apply c_reset.
@@ -96,13 +96,29 @@ Definition cfg_plain (secure : bool) : cfg :=
 Definition start (c : cfg) : st := rstate (reset c (fresh c false)).
 Definition cap (l : list str) : inmsg := ICap ([42] :: l).
 
-(* F7: LS sasl / ACK sasl / NEW batch / 903  =>  CAP END with 'batch' outstanding *)
-Example cap_end_outstanding_witness :
+(* the old witness of finding C08.F7 (fixed): LS sasl / ACK sasl / NEW batch / 903.
+   CAP END is no longer sent with 'batch' outstanding; it is sent -- once, with
+   nothing outstanding -- when the late request is answered (non-vacuity of
+   the CAP END clauses: a CAP END does happen) *)
+Definition is_end (o : outev) : bool := match o with GEnd _ _ _ => true | _ => false end.
+Definition s_batch : str := [98;97;116;99;104].
+Definition f7_prefix : list inmsg :=
+  [cap [s_LS; s_sasl]; cap [[65;67;75]; s_sasl]; cap [[78;69;87]; s_batch]; INum 903 []].
+Example cap_end_waits_for_late_request :
   let c := cfg_plain true in
-  let ms := [cap [s_LS; s_sasl]; cap [[65;67;75]; s_sasl]; cap [[78;69;87]; [98;97;116;99;104]]; INum 903 []] in
-  forallb (fun m => match m with ICap ([_; sub; _]) => negb (seq_eqb sub [78;69;87]) | _ => true end) ms = false /\
-  existsb (fun o => match o with GEnd _ (_ :: _) => true | _ => false end) (snd (run_msgs c (start c) ms)) = true.
+  existsb is_end (snd (run_msgs c (start c) f7_prefix)) = false /\
+  req (fst (run_msgs c (start c) f7_prefix)) = [s_sasl; s_batch] /\
+  filter is_end (snd (run_msgs c (start c) (f7_prefix ++ [cap [[65;67;75]; s_batch]]))) = [GEnd 1 [] true] /\
+  fsm (fst (run_msgs c (start c) (f7_prefix ++ [cap [[65;67;75]; s_batch]; INum 376 []]))) = CONNECTED.
 Proof. vm_compute. auto. Qed.
+
+(* the old witness of finding C08.F24 (fixed): the server offers echo-message
+   alone.  Nothing is requested and the negotiation ends *)
+Example echo_only_ends :
+  let c := cfg_plain true in
+  snd (run_msgs (Cfg [s_echo; s_label] false [] [] [] None false false true [104] 3)
+                (start c) [cap [s_LS; s_echo]]) = [GReq [] [s_echo] []; GEnd 1 [] false; Send s_CAP [s_END]].
+Proof. vm_compute. reflexivity. Qed.
 
 (* F23: an STS policy in the middle of a CAP LS line over an insecure link:
    the reconnect resets the object, the handler goes on, the new connection
